@@ -849,7 +849,9 @@ pub fn run_case(c: &Case) -> Outcome {
             let sres = chain::sudo(&mut w.app, &factory, &j);
             if sres.is_ok() {
                 let newmax = 1u64;
-                for l in [0u64, 1, 2, held - 1, held, held + 1] {
+                // descending, the only legal value last: a handler that exempts LOWERING the limit from the bound must meet
+                // a value below the held limit and above the new maximum while the limit is still high
+                for l in [held + 1, held, held - 1, 2, 0, 1] {
                     let before = q_pal(&w);
                     let res = chain::exec(&mut w.app, CREATOR, &ma, &json!({"update_per_address_limit": {"per_address_limit": l}}), &[]);
                     let after = q_pal(&w);
